@@ -33,12 +33,20 @@ def vals(r, n, zero=0.2):
     return [fnum(Fraction(r.randint(-20, 80), r.choice([1, 2, 4]))) if r.random() > zero else "0" for _ in range(n)]
 
 
+ALT = {"t": [["i2000", "i2001", "i2002"], ["i2010", "i2011", "i2012"], ["i2002", "i2000", "i2001"]],
+       "r": [["sEU", "sAsia"], ["sAsia", "sEU"], ["sUS", "sCN"]],
+       "g": [["scar", "sbike", "sbus"], ["sbus", "scar", "sbike"], ["svan", "struck", "sbike"]]}
+TY = {"t": "i", "r": "s", "g": "s"}
+
+
 class Case:
-    def __init__(self, lines, n, stream):
+    def __init__(self, lines, n, stream, r=None):
         self.lines = lines
         lines.append(f"case {n} {stream}")
+        # same dimension names and sizes from case to case, other items or another item order
+        self.items = {l: (r.choice(ALT[l]) if r is not None else ITEMS[l]) for l in "trg"}
         for l in "trg":
-            lines.append(f"dim ${H[l]} {DIMS[l]}")
+            lines.append(f"dim ${H[l]} D:{l}:{NAME[l]}:{TY[l]}:{','.join(self.items[l])}")
         self.dh = 10
         self.dsets = {}
 
@@ -87,7 +95,7 @@ def gen_export(tier, seed):
     lines = []
     stats = {"cases": 0, "flows": 0, "stocks": 0, "scalar_flows": 0}
     for n in range(ncases):
-        c = Case(lines, n, "export")
+        c = Case(lines, n, "export", r)
         gen_system(r, c, lines, stats)
         lines += ["x_dict", "x_pickle", "x_dictpd", "x_files flows", "x_files stocks 0", "x_files stocks 1",
                   f"x_csvback {r.choice([0, 1])}", "x_dict"]
@@ -102,14 +110,14 @@ def gen_plot(tier, seed):
     stats = {"cases": 0, "flows": 0, "stocks": 0, "scalar_flows": 0, "sankeys": 0, "splits": 0, "slices": 0, "plots": 0,
              "x_arrays": 0, "invalid_on_purpose": 0}
     for n in range(ncases):
-        c = Case(lines, n, "plot")
+        c = Case(lines, n, "plot", r)
         if r.random() < 0.5:
             procs, all_ls, flows, stocks = gen_system(r, c, lines, stats, allow_scalar=True)
             for _ in range(r.randint(1, 3)):
                 lines.append("k_begin")
                 if r.random() < 0.6:
                     ks = r.sample(all_ls, r.randint(1, len(all_ls)))
-                    lines.append("k_slice " + " ".join(f"{l}={r.choice(ITEMS[l])}" for l in ks))
+                    lines.append("k_slice " + " ".join(f"{l}={r.choice(c.items[l])}" for l in ks))
                     stats["slices"] += 1
                 elif r.random() < 0.1:
                     lines.append("k_slice z=i1")                     # unknown dimension: refused
